@@ -123,15 +123,25 @@ func (i Integer) MarshalJSON() ([]byte, error) {
 // fmt package and Printf related methods do to get around all the complexities
 // of float conversion.
 func (f Float) MarshalJSON() ([]byte, error) {
+	if f == 0 {
+		// zero never carries a sign, not even negative zero
+		return []byte(`0.0E0`), nil
+	}
 	num := []byte{}
 	num = strconv.AppendFloat(num, float64(f), 'E', -1, 64)
 
-	// When decimal place is missing, add it. This only happens
-	// when the number is 0.
-	if num[1] != '.' {
-		num = append(num[0:3], num[1:]...)
-		num[1] = '.'
-		num[2] = '0'
+	// Skip the sign to find the first digit
+	d := 0
+	if num[0] == '-' {
+		d = 1
+	}
+
+	// When decimal place is missing, add it. This happens when
+	// there is a single significant digit, like 1 or 100.
+	if num[d+1] != '.' {
+		num = append(num[0:d+3], num[d+1:]...)
+		num[d+1] = '.'
+		num[d+2] = '0'
 	}
 
 	// Split into two parts
